@@ -49,6 +49,10 @@ def gen_case(rng, tier):
     if rng.random() < 0.12 and len(content) <= 1500:
         # the lookups are made on a GzipFile over the same bytes (1..3 members)
         case['gz_members'] = rng.choice([1, 2, 3])
+    elif rng.random() < 0.1:
+        # lookups through a sub-class that sets another SEEK_HORIZON (small contents only: what
+        # is found there does not depend on the horizon as long as ONE value is used throughout)
+        case['sub_horizon'] = rng.choice([64, 1024])
     return case
 
 
@@ -91,7 +95,8 @@ def eval_cases(rng, count, extra):
         offs = case.get('offsets')
         impl = {'tfl': K.impl_tfl_all(content, case['cons'], offs,
                                       order_seed=case.get('order_seed'),
-                                      gz_members=case.get('gz_members', 0)),
+                                      gz_members=case.get('gz_members', 0),
+                                      sub_horizon=case.get('sub_horizon')),
                 'apply': K.impl_apply(content, case['cons']),
                 # the non-destructive form (returns the offset, leaves the position alone)
                 'apply_nd': K.impl_apply(content, case['cons'], destructive=False)}
